@@ -46,6 +46,47 @@ var preludeBlocks = []preludeBlock{
 (assert (= (pow2 0) 1))
 (assert (forall ((k Int)) (! (=> (> k 0) (= (pow2 k) (* 2 (pow2 (- k 1))))) :pattern ((pow2 k)))))
 (assert (forall ((k Int)) (! (=> (>= k 0) (>= (pow2 k) 1)) :pattern ((pow2 k)))))
+(assert (forall ((a Int) (b Int)) (! (=> (and (<= 0 a) (< a b)) (< (pow2 a) (pow2 b))) :pattern ((pow2 a) (pow2 b)))))
+(assert (= (pow2 1) 2))
+(assert (= (pow2 2) 4))
+(assert (= (pow2 3) 8))
+(assert (= (pow2 4) 16))
+(assert (= (pow2 5) 32))
+(assert (= (pow2 6) 64))
+(assert (= (pow2 7) 128))
+(assert (= (pow2 8) 256))
+(assert (= (pow2 9) 512))
+(assert (= (pow2 10) 1024))
+(assert (= (pow2 11) 2048))
+(assert (= (pow2 12) 4096))
+(assert (= (pow2 13) 8192))
+(assert (= (pow2 14) 16384))
+(assert (= (pow2 15) 32768))
+(assert (= (pow2 16) 65536))
+(assert (= (pow2 17) 131072))
+(assert (= (pow2 18) 262144))
+(assert (= (pow2 19) 524288))
+(assert (= (pow2 20) 1048576))
+(assert (= (pow2 21) 2097152))
+(assert (= (pow2 22) 4194304))
+(assert (= (pow2 23) 8388608))
+(assert (= (pow2 24) 16777216))
+(assert (= (pow2 25) 33554432))
+(assert (= (pow2 26) 67108864))
+(assert (= (pow2 27) 134217728))
+(assert (= (pow2 28) 268435456))
+(assert (= (pow2 29) 536870912))
+(assert (= (pow2 30) 1073741824))
+(assert (= (pow2 31) 2147483648))
+(assert (= (pow2 32) 4294967296))
+(assert (= (pow2 33) 8589934592))
+(assert (= (pow2 34) 17179869184))
+(assert (= (pow2 35) 34359738368))
+(assert (= (pow2 36) 68719476736))
+(assert (= (pow2 37) 137438953472))
+(assert (= (pow2 38) 274877906944))
+(assert (= (pow2 39) 549755813888))
+(assert (= (pow2 40) 1099511627776))
 `},
 	{[]string{"umod"}, `(declare-fun umod (Int Int) Int)
 (assert (forall ((a Int) (n Int)) (! (=> (and (>= a 0) (> n 0)) (and (<= 0 (umod a n)) (< (umod a n) n))) :pattern ((umod a n)))))
